@@ -105,6 +105,19 @@ struct Pair3 {
     q: Leaf<u8>,
 }
 
+thread_local! {
+    /// while set, the validator of `mode/B` rejects every write (a validator on an enum variant's payload)
+    static VAL_B_LOCK: std::cell::Cell<bool> = const { std::cell::Cell::new(false) };
+}
+
+fn val_b(depth: usize) -> Result<usize, &'static str> {
+    if VAL_B_LOCK.with(|l| l.get()) {
+        Err("b locked")
+    } else {
+        Ok(depth)
+    }
+}
+
 #[derive(Tree, Clone, Default)]
 enum Mode3 {
     #[default]
@@ -112,7 +125,7 @@ enum Mode3 {
     #[tree(skip)]
     Cal(u8),
     A(Leaf<u8>),
-    B(Leaf<u8>),
+    B(#[tree(validate=val_b)] Leaf<u8>),
 }
 
 #[derive(Tree, Clone, Default)]
@@ -137,6 +150,9 @@ impl Fam for S3 {
                 }
                 Err(_) => false,
             }
+        } else if cmd == "vlock0" || cmd == "vlock1" {
+            VAL_B_LOCK.with(|l| l.set(cmd == "vlock1"));
+            true
         } else if let Some(m) = cmd.strip_prefix("mode") {
             let (v, n) = m.split_at(1.min(m.len()));
             let n: u8 = n.parse().unwrap_or(0);
@@ -255,6 +271,8 @@ struct World {
     tx: Vec<u8>,
     /// Remaining bytes the socket accepts (None = unlimited).
     txcap: Option<usize>,
+    /// per-call limit of `send()`: a slow link that takes a few bytes at a time (partial writes)
+    txchunk: Option<usize>,
 
     // --- broker ---
     log: Vec<String>,
@@ -285,6 +303,7 @@ impl World {
             rx: VecDeque::new(),
             tx: Vec::new(),
             txcap: None,
+            txchunk: None,
             log: Vec::new(),
             auto_ack: true,
             auto_suback: true,
@@ -738,6 +757,10 @@ impl TcpClientStack for Stack {
             Some(0) if !buffer.is_empty() => return Err(nb::Error::WouldBlock),
             Some(cap) => cap.min(buffer.len()),
         };
+        let n = match w.txchunk {
+            Some(c) => n.min(c.max(1)),
+            None => n,
+        };
         if let Some(cap) = w.txcap.as_mut() {
             *cap -= n;
         }
@@ -876,6 +899,11 @@ impl<S: Fam> Driver<'_, S> {
             self.world.borrow_mut().pingresp = false;
         } else if ev == "pingresp1" {
             self.world.borrow_mut().pingresp = true;
+        } else if ev == "txchunkoff" {
+            self.world.borrow_mut().txchunk = None;
+        } else if let Some(n) = ev.strip_prefix("txchunk") {
+            let n: usize = n.parse().ok()?;
+            self.world.borrow_mut().txchunk = Some(n);
         } else if ev == "txcapoff" {
             self.world.borrow_mut().txcap = None;
         } else if let Some(n) = ev.strip_prefix("txcap") {
@@ -947,6 +975,7 @@ impl<S: Fam> Driver<'_, S> {
 }
 
 fn run_family<S: Fam>(bufsize: usize, events: &[&str]) -> String {
+    VAL_B_LOCK.with(|l| l.set(false));
     let world = Rc::new(RefCell::new(World::new()));
     let time = Rc::new(Cell::new(0u64));
     // `clk<start>` as the first event: the value of the 32-bit clock when the history begins
